@@ -691,8 +691,12 @@ def replay_file(prop, path):
                     print("RAISES %s %s" % (rid, errs[rid]))
                     bad += r.get("error_kind") != "derive"
                 elif rid in failed:
-                    print("FAILS %s clauses=%s order=%s" % (rid, sorted(failed[rid]), r.get("order")))
-                    bad += 1
+                    own = sorted(c for c in failed[rid] if c.startswith("diag:") or c == "StdTypes" or clause_prop(c) == prop)
+                    if [c for c in own if not c.startswith("diag:")]:
+                        print("FAILS %s clauses=%s order=%s" % (rid, own, r.get("order")))
+                        bad += 1
+                    else:
+                        print("HOLDS %s (clauses of the sibling property fail: %s)" % (rid, sorted(set(failed[rid]) - set(own))))
                 else:
                     print("HOLDS %s" % rid)
         if plain:
